@@ -468,6 +468,8 @@ class DgramSock(SimSocketBase):
         if self._closed:
             raise OSError(errno.EBADF, 'Bad file descriptor')
         data = b''.join(bytes(buf) for buf in bufs)
+        if len(data) > 65507:
+            raise OSError(errno.EMSGSIZE, 'Message too long')
         if addr is None:
             addr = self.raddr
         if self.laddr is None:
